@@ -17,7 +17,8 @@ Definition v_set (e : venv) (n s : str) : venv :=
   then map (fun kv => if str_eqb (fst kv) n then (n, s) else kv) e
   else e ++ [(n, s)].
 
-Inductive out9 := ONorm (v : str) | OBreak | OContinue | OReturn (v : str) | OError.
+Inductive out9 := ONorm (v : str) | OBreak | OContinue | OReturn (v : str) | OError
+  | ORetBC (is_break : bool).   (* return -code break / continue: a return until it crosses the procedure boundary *)
 
 Definition tg (t : term) (k : string) : bool := str_eqb (term_str (term_nth t 0)) (lit k).
 Definition dstr (d : datum) : str := datum_str d.
@@ -172,6 +173,29 @@ Fixpoint stmt9 (fuel : nat) (s : st9) (t : term) {struct fuel} : st9 * out9 :=
             | None => (s, OError)
             end
         end in
+      (* while {[incr c] <= k} body: the test itself increments the counter, before every iteration *)
+      let loop_whilec := fix loop_whilec (n : nat) (s : st9) (c : str) (k : Z) (body : list term)
+                           : st9 * out9 :=
+        match n with
+        | O => (s, ONorm [])
+        | S n' =>
+            match v_get (cur9 s) c with
+            | Some cs =>
+                match get_int cs with
+                | Some cv =>
+                    let s1 := upd9 s (fun e => v_set e c (show_Z (cv + 1))) in
+                    if cv + 1 <=? k then
+                      match block s1 body [] with
+                      | (s2, ONorm _) | (s2, OContinue) => loop_whilec n' s2 c k body
+                      | (s2, OBreak) => (s2, ONorm [])
+                      | other => other
+                      end
+                    else (s1, ONorm [])
+                | None => (s, OError)
+                end
+            | None => (s, OError)
+            end
+        end in
       let loop_each := fix loop_each (n : nat) (s : st9) (vars : list str) (l : list str) (body : list term)
                           : st9 * out9 :=
         match n with
@@ -221,6 +245,8 @@ Fixpoint stmt9 (fuel : nat) (s : st9) (t : term) {struct fuel} : st9 * out9 :=
         end
       else if tg t "break" then (s, OBreak)
       else if tg t "continue" then (s, OContinue)
+      else if tg t "retbreak" then (s, ORetBC true)
+      else if tg t "retcont" then (s, ORetBC false)
       else if tg t "return" then
         match ev9s e (term_nth t 1) with Some v => (s, OReturn v) | None => (s, OError) end
       else if tg t "if" then
@@ -241,6 +267,10 @@ Fixpoint stmt9 (fuel : nat) (s : st9) (t : term) {struct fuel} : st9 * out9 :=
         let c := name in
         loop_while (S (Z.to_nat (term_int (term_nth t 2)))) (upd9 s (fun e => v_set e c (lit "0"))) c
                    (term_int (term_nth t 2)) (term_list (term_nth t 3)) false
+      else if tg t "whilec" then
+        let c := name in
+        loop_whilec (S (S (Z.to_nat (term_int (term_nth t 2))))) (upd9 s (fun e => v_set e c (lit "0"))) c
+                    (term_int (term_nth t 2)) (term_list (term_nth t 3))
       else if tg t "for" then
         let c := name in
         loop_while (S (Z.to_nat (term_int (term_nth t 2)))) (upd9 s (fun e => v_set e c (lit "0"))) c
@@ -267,6 +297,7 @@ Fixpoint stmt9 (fuel : nat) (s : st9) (t : term) {struct fuel} : st9 * out9 :=
         | (s1, ONorm _) => (s1, ONorm (lit "0"))
         | (s1, OError) => (s1, ONorm (lit "1"))
         | (s1, OReturn _) => (s1, ONorm (lit "2"))
+        | (s1, ORetBC _) => (s1, ONorm (lit "2"))
         | (s1, OBreak) => (s1, ONorm (lit "3"))
         | (s1, OContinue) => (s1, ONorm (lit "4"))
         end
@@ -283,6 +314,9 @@ Fixpoint stmt9 (fuel : nat) (s : st9) (t : term) {struct fuel} : st9 * out9 :=
               match block {| genv := genv s; lenv := Some init; tr9 := tr9 s |} body [] with
               | (s1, ONorm v) | (s1, OReturn v) =>
                   (upd9 {| genv := genv s1; lenv := lenv s; tr9 := tr9 s1 |} (fun e => v_set e name v), ONorm v)
+              | (s1, ORetBC b) =>
+                  (* takes effect in the caller as break / continue; the assignment does not happen *)
+                  ({| genv := genv s1; lenv := lenv s; tr9 := tr9 s1 |}, if b then OBreak else OContinue)
               | (s1, _) => ({| genv := genv s1; lenv := lenv s; tr9 := tr9 s1 |}, OError)
               end
             else (s, OError)
@@ -331,6 +365,8 @@ Definition c09_spec_ok (c obs : term) : bool :=
       && match o, out with
          | ONorm v, TList [TStr t; TStr got] => str_eqb t (lit "Ok") && str_eqb got v
          | OError, TList (TStr t :: _) => str_eqb t (lit "Err")
+         (* a break / continue that reaches the top level is reported as an error *)
+         | OBreak, TList (TStr t :: _) | OContinue, TList (TStr t :: _) => str_eqb t (lit "Err")
          | _, _ => false
          end
   | _ => false
